@@ -76,5 +76,13 @@ CLAIMS['C11'] = dict(
          'deductively (vectorised Fresnel code); they are only exercised by the bounded native sweep.',
     note='clause-only claim; call graph by method name and arity (over-approximation); floats as reals',
     design_ref='DESIGN.md §5 C11')
+CLAIMS['C10'] = dict(
+    text='Clause claimed: "the dBi and V/m tables describe the same field". Proof, pointwise for an arbitrary direction and arbitrary '
+         'complex field components, on the real tail slice of compute_far_field and Far_Field_Pattern.__init__: each gain is '
+         '10log10(.016678|E|^2/P) with the -999 floor, the total is the power sum, E = field/distance*sqrt(P_requested/P), and '
+         'gain = |E|^2 r^2/(59.96 P) within 2e-5; scaling lemma. The radiation-integral, periodicity and zenith clauses are not '
+         'decided deductively (bounded native sweep with an independent radiation integral only).',
+    note='clause-only claim; slice executed at array shape 1x1 (elementwise statements); log/sqrt uninterpreted with axioms; floats as reals',
+    design_ref='DESIGN.md §5 C10')
 for _p in CLAIMS:
     NOT_APPLICABLE.pop(_p, None)
